@@ -36,6 +36,13 @@ from pybrops.popgen.cmat.DenseMolecularCoancestryMatrix import DenseMolecularCoa
 from pybrops.popgen.cmat.DenseVanRadenCoancestryMatrix import DenseVanRadenCoancestryMatrix
 from pybrops.model.vmat.DenseTwoWayDHAdditiveGeneticVarianceMatrix import DenseTwoWayDHAdditiveGeneticVarianceMatrix
 from pybrops.model.vmat.DenseThreeWayDHAdditiveGenicVarianceMatrix import DenseThreeWayDHAdditiveGenicVarianceMatrix
+from pybrops.model.vmat.DenseTwoWayDHAdditiveGenicVarianceMatrix import DenseTwoWayDHAdditiveGenicVarianceMatrix
+from pybrops.model.vmat.DenseThreeWayDHAdditiveGeneticVarianceMatrix import DenseThreeWayDHAdditiveGeneticVarianceMatrix
+from pybrops.model.vmat.DenseFourWayDHAdditiveGeneticVarianceMatrix import DenseFourWayDHAdditiveGeneticVarianceMatrix
+from pybrops.model.vmat.DenseFourWayDHAdditiveGenicVarianceMatrix import DenseFourWayDHAdditiveGenicVarianceMatrix
+from pybrops.model.vmat.DenseDihybridDHAdditiveGeneticVarianceMatrix import DenseDihybridDHAdditiveGeneticVarianceMatrix
+from pybrops.model.vmat.DenseDihybridDHAdditiveGenicVarianceMatrix import DenseDihybridDHAdditiveGenicVarianceMatrix
+from pybrops.popgen.cmat.DenseYangCoancestryMatrix import DenseYangCoancestryMatrix
 
 # class key -> (class, layout of mat axes, kind)
 ADAPT = {
@@ -56,6 +63,13 @@ ADAPT = {
     "DenseVanRadenCoancestryMatrix": (DenseVanRadenCoancestryMatrix, ("taxa", "taxa"), "float"),
     "DenseTwoWayDHAdditiveGeneticVarianceMatrix": (DenseTwoWayDHAdditiveGeneticVarianceMatrix, ("taxa", "taxa", "trait"), "float"),
     "DenseThreeWayDHAdditiveGenicVarianceMatrix": (DenseThreeWayDHAdditiveGenicVarianceMatrix, ("taxa", "taxa", "taxa", "trait"), "float"),
+    "DenseTwoWayDHAdditiveGenicVarianceMatrix": (DenseTwoWayDHAdditiveGenicVarianceMatrix, ("taxa", "taxa", "trait"), "float"),
+    "DenseThreeWayDHAdditiveGeneticVarianceMatrix": (DenseThreeWayDHAdditiveGeneticVarianceMatrix, ("taxa", "taxa", "taxa", "trait"), "float"),
+    "DenseFourWayDHAdditiveGeneticVarianceMatrix": (DenseFourWayDHAdditiveGeneticVarianceMatrix, ("taxa", "taxa", "taxa", "taxa", "trait"), "float"),
+    "DenseFourWayDHAdditiveGenicVarianceMatrix": (DenseFourWayDHAdditiveGenicVarianceMatrix, ("taxa", "taxa", "taxa", "taxa", "trait"), "float"),
+    "DenseDihybridDHAdditiveGeneticVarianceMatrix": (DenseDihybridDHAdditiveGeneticVarianceMatrix, ("taxa", "taxa", "trait"), "float"),
+    "DenseDihybridDHAdditiveGenicVarianceMatrix": (DenseDihybridDHAdditiveGenicVarianceMatrix, ("taxa", "taxa", "trait"), "float"),
+    "DenseYangCoancestryMatrix": (DenseYangCoancestryMatrix, ("taxa", "taxa"), "float"),
 }
 
 LABELS = {
